@@ -305,6 +305,7 @@ func runCheck(eng *Engine, o checkOpts, t0 time.Time) int {
 			"load_seconds":             round3(eng.loadSeconds),
 			"covers":                   nCover,
 			"covers_reachable":         nCoverOK,
+			"covers_note":              "one vacuity guard per case run: the assumptions in force at the call under verification are checked for satisfiability; sat = reachable, unknown (quantified preconditions) = not refuted within 4 s, unsat would abort the check as an engine fault",
 			"known_findings_reproduced": nKnown,
 			"explanation":              "obligations counts the obligations claimed as proved on this run (those of open known findings and of undecided.json are listed separately and not claimed)",
 			"undecided":                undecided,
